@@ -190,7 +190,7 @@ PROPS['C15'] = dict(
          'last-fragment flag is set exactly on the fragment that completes the compressed packet the server read from its tun device. '
          'non-trivial iff a packet needed >= 3 fragments and a size was set by an accepted N request',
     engine_text='rapidcheck over choice tapes; simnet hosting the real iodined; scripted sessions (refproto); ASan+UBSan; up to 2 sessions with client-to-client packets',
-    bounds='<= 2 sessions, <= 60 actions, packets <= 20000 bytes; numbering judged for packets that fit 16 fragments Round 5: new session on a recycled slot repeats a ping name of the earlier session.',
+    bounds='<= 2 sessions, <= 60 actions, packets <= 20000 bytes; numbering judged for packets that fit 16 fragments Round 5: new session on a recycled slot repeats a ping name of the earlier session. Round 9: re-deliveries of answered / pending queries (same windows as C16) anywhere in the history, in particular after an N request lowered the size (fix 892bace).',
     trusted_base=TB_SIM, assumptions=AS_SIM + ['zlib level-9 output is deterministic (the harness recomputes the compressed form of every packet the server read)'],
 )
 PROPS['C14'] = dict(
